@@ -16,6 +16,8 @@ claimed = {
          "§5 C03"),
  "C05": ("BX", "Explicit-state BFS (depth 5 quick / 7 thorough) over histories of TryAcquire/Reserve/TryReserve/blocking Acquire/executions with permit counts {1,2,3,5}, max waits {0, unit-1, unit, 3 units, none} and clock advances (1 tick, boundary-1, boundary, boundary+1, 2.5 and 7 units of idle time) on 10 real smooth and bursty limiters, every answer compared with a slot/period reference model (earliest instant respecting the rate and request order; refusals change nothing); plus SX exploration (deviation bound 2/3) of 2-3 concurrent callers whose answers must equal those of some sequential order.",
          "§5 C05"),
+ "C15": ("SX", "Exhaustive exploration (deviation bound 2 quick / 3 thorough, happens-before state cache) of the async runner, 1-3 concurrent readers each doing a sequence of Done/IsDone/Get/Result/Error, and an optional Cancel at instants before, inside, at the end of and between attempts, for all four async entry points and stacks none/retry/hedge/timeout/fallback; Done-after-listeners, IsDone monotonicity, equal values for all readers, agreement with the synchronous run of the same program and the Cancel outcome are checked on every schedule.",
+         "§5 C15"),
 }
 na = {}
 props = [json.loads(l) for l in open('/verif/properties.jsonl')]
